@@ -522,3 +522,14 @@ func verifTickerDuration(x float64) {
 //@   loop 0 invariant [C33:at-most-one-each] len(refs) <= rangeindex + 1
 //@   loop 0 invariant [own-result] fresh(refs)
 //@   loop 0 decreases len(n.refs) - rangeindex
+
+// CloseSession: whatever else the request asks for (DeleteSubscriptions or not), a Good answer means the
+// session is gone from the table, so its token can no longer be activated or used.
+//@ func (*SessionService).CloseSession
+//@   props C35 C29
+//@   requires s != nil && s.srv != nil && s.srv.cfg != nil && s.srv.sb != nil
+//@   requires [arg] typeis(r, *ua.CloseSessionRequest) ==> dyn(r, *ua.CloseSessionRequest) != nil &&
+//@            dyn(r, *ua.CloseSessionRequest).RequestHeader != nil && dyn(r, *ua.CloseSessionRequest).RequestHeader.AuthenticationToken != nil
+//@   assigns *
+//@   ensures [C35:closed] err == nil ==> typeis(r, *ua.CloseSessionRequest) &&
+//@           !in(ua.nodeStr(dyn(r, *ua.CloseSessionRequest).RequestHeader.AuthenticationToken), s.srv.sb.s)
